@@ -291,7 +291,8 @@ def judge_iv(line_opt, ans_opt, ans_orig):
         if ans_opt == ans_orig:
             return None
         single = (c == 0 or m == 1)
-        if single and (g != "lt" or m <= 0):
+        wraps = any(not in_range(m * x + c) for x in (i0, b, i0 + 40 * st))
+        if single and (g != "lt" or m <= 0 or wraps):
             return ("known", "C02-F4", f"loop {line_opt}: original {ans_orig}, optimised {ans_opt}")
         return ("bad", f"loop termination changed: original `{ans_orig}` optimised `{ans_opt}` for {line_opt}")
     if ans_opt != ans_orig:
@@ -595,6 +596,9 @@ class Gen:
         live = []
         for _ in range(r.range(1, 4)):
             base = r.pick(ivs)[0]
+            if safe_f4 and not print_guard and not ginit.lstrip("-").isdigit():
+                # symbolic start: m*i + c may wrap for extreme arguments (F4: no overflow reasoning)
+                base = r.pick([v for v in ivs if v[0] != gv])[0]
             if safe_f4 and not print_guard and base == gv:
                 m = r.pick([1, 2, 3])
             else:
@@ -894,7 +898,9 @@ def classify_prog(pass_, fns, answer):
                     d = derived[0]
                     mult = d[4] if d[3] == ivar else d[3]
                     bad_mult = d[2] == "mul" and (not mult.lstrip("-").isdigit() or int(mult) <= 0)
-                    if guard[2] != "ge" or bad_mult:
+                    init = [lv[1] for lv in w[1] if lv[0] == ivar]
+                    symbolic = not guard[4].lstrip("-").isdigit() or any(not x.lstrip("-").isdigit() for x in init)
+                    if guard[2] != "ge" or bad_mult or symbolic:
                         return "C02-F4"
     return None
 
